@@ -126,6 +126,21 @@ func (rs *raceScenario) body(x *Exec) {
 	verifrt.AwaitQuiescence()
 }
 
+// sameKey: the two command templates have a key name in common
+func sameKey(a, b []string) bool {
+	for _, x := range a[1:] {
+		if len(x) < 2 || x[0] != 'k' {
+			continue
+		}
+		for _, y := range b[1:] {
+			if x == y {
+				return true
+			}
+		}
+	}
+	return false
+}
+
 func raceScenarios(tier string) []*Scenario {
 	var out []*Scenario
 	add := func(rs *raceScenario) { out = append(out, rs.scenario()) }
@@ -133,9 +148,9 @@ func raceScenarios(tier string) []*Scenario {
 	n := len(raceTemplates)
 	for i := 0; i < n; i++ {
 		for j := i; j < n; j++ {
-			if tier != "thorough" && (i*7+j*3)%4 != 0 && i != j {
-				// quick: a quarter of the pairs plus all self pairs (every template meets itself and
-				// ~n/4 partners); thorough: all pairs
+			if tier != "thorough" && i != j && !sameKey(raceTemplates[i], raceTemplates[j]) && (i*7+j*3)%8 != 0 {
+				// quick: every pair of templates that name a common key (where a race on the stored
+				// object can be), all self pairs, and an eighth of the remaining pairs; thorough: all
 				continue
 			}
 			add(&raceScenario{name: "pair/" + label(raceTemplates[i]) + "||" + label(raceTemplates[j]), threads: [][][]string{{raceTemplates[i]}, {raceTemplates[j]}}})
@@ -201,6 +216,19 @@ type raceReport struct {
 	Kinds  [2]string
 }
 
+// attributed: the frame an access is attributed to (the first one that is not a runtime helper)
+func attributed(stack []string) string {
+	for _, fr := range stack {
+		if !strings.HasPrefix(fr, "runtime.") && !strings.HasPrefix(fr, "internal/") {
+			return fr
+		}
+	}
+	if len(stack) > 0 {
+		return stack[0]
+	}
+	return "?"
+}
+
 func emulatorFrame(fn, file string) bool {
 	if !strings.HasPrefix(fn, "github.com/jimsnab/go-redisemu.") {
 		return false
@@ -247,8 +275,13 @@ func parseRaceReports(dir string) (reports []raceReport, rawCount int) {
 					ok = false
 					break
 				}
-				// the access itself must be in emulator code (not inside a shim or the harness)
-				parts := strings.SplitN(cur.Stacks[k][0], " @ ", 2)
+				// the access itself must be in emulator code (not inside a shim or the harness); memory
+				// moved by a runtime helper (copy, append, string conversion) belongs to its caller
+				top := 0
+				for top < len(cur.Stacks[k])-1 && (strings.HasPrefix(cur.Stacks[k][top], "runtime.") || strings.HasPrefix(cur.Stacks[k][top], "internal/")) {
+					top++
+				}
+				parts := strings.SplitN(cur.Stacks[k][top], " @ ", 2)
 				if len(parts) != 2 || !emulatorFrame(parts[0], parts[1]) {
 					ok = false
 					break
@@ -358,7 +391,7 @@ func runRaceCompanion(prop string, groups []string, bound int, tier string, rep 
 	sort.Strings(order)
 	for _, sig := range order {
 		r := first[sig]
-		rep.add("unsynchronised-access|"+sig, fmt.Sprintf("race detector, scenarios %s/%s: %s at %s  vs  %s at %s: the command is not executed under the lock that makes it atomic", prop, group, r.Kinds[0], r.Stacks[0][0], r.Kinds[1], r.Stacks[1][0]), map[string]any{"stack1": r.Stacks[0], "stack2": r.Stacks[1]})
+		rep.add("unsynchronised-access|"+sig, fmt.Sprintf("race detector, scenarios %s/%s: %s at %s  vs  %s at %s: the command is not executed under the lock that makes it atomic", prop, group, r.Kinds[0], attributed(r.Stacks[0]), r.Kinds[1], attributed(r.Stacks[1])), map[string]any{"stack1": r.Stacks[0], "stack2": r.Stacks[1]})
 		rep.findings["unsynchronised-access|"+sig].Count = counts[sig]
 	}
 	rep.Coverage["race_reports_raw"] = raw
@@ -396,7 +429,7 @@ func runRaceCheck(tier string, rep *Report) {
 	sort.Strings(order)
 	for _, sig := range order {
 		r := bySig[sig]
-		detail := fmt.Sprintf("race detector: %s at %s  vs  %s at %s", r.Kinds[0], r.Stacks[0][0], r.Kinds[1], r.Stacks[1][0])
+		detail := fmt.Sprintf("race detector: %s at %s  vs  %s at %s", r.Kinds[0], attributed(r.Stacks[0]), r.Kinds[1], attributed(r.Stacks[1]))
 		rep.add(sig, detail, map[string]any{"stack1": r.Stacks[0], "stack2": r.Stacks[1]})
 		rep.findings[sig].Count = counts[sig]
 	}
